@@ -3,6 +3,7 @@ package main
 import (
 	"go/ast"
 	"go/token"
+	"sort"
 	"strings"
 )
 
@@ -58,4 +59,88 @@ func extractC12() {
 		}
 	}
 	g.def("prioInsertTest", "List String", leanList(ops))
+
+	// The JSON members of the structs the *FromJSON functions decode into: (struct, [(json tag, Go type)]),
+	// sorted by tag. The model's member lists (Config.fifoFields, …) and kinds (slice of raw messages
+	// vs slice of structs, int64, string, bool) transcribe this table.
+	type sf struct{ file, name string }
+	var rows []string
+	for _, x := range []sf{{"fifo/fifo_group.go", "groupJSON"}, {"priority/priority_group.go", "groupJSON"}, {"priority/priority_group.go", "modifierJSON"},
+		{"martianurl/url_filter.go", "filterJSON"}, {"header/header_filter.go", "filterJSON"}, {"querystring/query_string_filter.go", "filterJSON"},
+		{"method/method_filter.go", "filterJSON"}, {"cookie/cookie_filter.go", "filterJSON"}} {
+		f := parse(x.file)
+		var members []string
+		ast.Inspect(f, func(n ast.Node) bool {
+			ts, ok := n.(*ast.TypeSpec)
+			if !ok || ts.Name.Name != x.name {
+				return true
+			}
+			if st, ok := ts.Type.(*ast.StructType); ok {
+				for _, fld := range st.Fields.List {
+					tag := ""
+					if fld.Tag != nil {
+						t := strings.Trim(fld.Tag.Value, "`")
+						if i := strings.Index(t, `json:"`); i >= 0 {
+							t = t[i+6:]
+							tag = t[:strings.Index(t, `"`)]
+						}
+					}
+					members = append(members, "("+leanStr(tag)+", "+leanStr(src(fld.Type))+")")
+				}
+			}
+			return false
+		})
+		sort.Strings(members)
+		rows = append(rows, "("+leanStr(f.Name.Name+"."+x.name)+", ["+strings.Join(members, ", ")+"])")
+	}
+	g.def("jsonStructs", "List (String × List (String × String))", "["+strings.Join(rows, ", ")+"]")
+
+	// Which part of the exchange a matcher's MatchResponse decides on (logging calls are not looked into):
+	// the response's own cookies / headers, or the method / URL / query of the request it answers.
+	sources := []string{"res.Cookies", "proxyutil.ResponseHeader", "res.Request.Method", "res.Request.URL", "res.Request"}
+	var reads []string
+	for _, x := range [][2]string{{"cookie/cookie_matcher.go", "cookie"}, {"header/header_matcher.go", "header"},
+		{"method/method_filter.go", "method"}, {"querystring/query_string_matcher.go", "querystring"}, {"martianurl/url_matcher.go", "url"}} {
+		seen := map[string]bool{}
+		if fd := funcDecl(parse(x[0]), "Matcher", "MatchResponse"); fd != nil {
+			ast.Inspect(fd.Body, func(n ast.Node) bool {
+				if c, ok := n.(*ast.CallExpr); ok && strings.HasPrefix(src(c.Fun), "log.") {
+					return false
+				}
+				if se, ok := n.(*ast.SelectorExpr); ok {
+					for _, w := range sources {
+						if src(se) == w {
+							seen[w] = true
+							return false // the longest source wins: do not also report its prefix
+						}
+					}
+				}
+				return true
+			})
+		}
+		var ss []string
+		for _, w := range sources {
+			if seen[w] {
+				ss = append(ss, w)
+			}
+		}
+		reads = append(reads, "("+leanStr(x[1])+", "+leanList(ss)+")")
+	}
+	g.def("matchResponseReads", "List (String × List String)", "["+strings.Join(reads, ", ")+"]")
+
+	calls := func(file, recv, fn string, want ...string) []string {
+		var out []string
+		if fd := funcDecl(parse(file), recv, fn); fd != nil {
+			for _, c := range callNames(fd.Body) {
+				for _, w := range want {
+					if c == w {
+						out = append(out, c)
+					}
+				}
+			}
+		}
+		return out
+	}
+	g.def("methodMatchCalls", "List String", leanList(calls("method/method_filter.go", "Matcher", "matches", "strings.EqualFold")))
+	g.def("queryMatchCalls", "List String", leanList(calls("querystring/query_string_matcher.go", "Matcher", "MatchRequest", "req.URL.Query")))
 }
